@@ -727,6 +727,10 @@ def ident_cases(draw):
             # the two-byte code <0020>: word spacing never applies to a multi-byte code (ISO 32000-1 9.3.3)
             codes = list(codes)
             codes.insert(draw(st.integers(0, len(codes))), 32)
+        if nbytes == 2 and draw(st.integers(0, 5)) == 0:
+            # the last code of the two-byte space (the last member of a range over the whole space)
+            codes = list(codes)
+            codes.insert(draw(st.integers(0, len(codes))), 0xFFFF)
         b = b"".join(c.to_bytes(nbytes, "big") for c in codes)
         if nbytes == 2 and draw(st.integers(0, 2)) == 0:
             b += bytes([draw(st.integers(0, 255))])
